@@ -71,7 +71,9 @@ PROPS.update({
         "text": "Theorems over all sequences of message-API calls of any length: at most one broker call succeeds, afterwards every "
                 "action is refused and nothing reaches the broker (single_use, spent_handle_refuses); refusals and failing broker "
                 "calls leave the handle unchanged; category and budget rules; callback order with the lazily positioned store; "
-                "_NoAction ends the body. Tie: exhaustive call sequences up to length 3 (Message) / 2 (MessageDependency) x "
+                "_NoAction ends the body. The guards, their order and the broker call of the six terminal methods are tied by the "
+                "translator: GenHandle.v is regenerated from repid/message.py and message_dependency.py on every run and proved equal to "
+                "Handle.wanted (C16_source_is_model_handle / _dependency / _default_success). Tie of the rest: exhaustive call sequences up to length 3 (Message) / 2 (MessageDependency) x "
                 "categories x retry states, plus random longer ones with injected failures (~3.5k per quick run).",
         "note": "In-memory broker; plain Message has no set_result/add_callback; actor bodies catching BaseException are outside the model.",
         "technique": "Coq proof by induction over call sequences + exhaustive-to-a-length differential correspondence",
